@@ -256,9 +256,40 @@ def parser_tree_tokens(ast, style):
 # ------------------------------------------------------------------ the property's own oracle
 
 
-def rel(ast, T, U):
-    """the relation the path denotes over triple set T, with zero-length steps on the terms of U"""
+def rel(ast, T, U, as_coded=False):
+    """the relation the path denotes over triple set T, with zero-length steps on the terms of U.
+    `as_coded=True` replaces the negated property set by what NegatedPath.eval computes (known finding C11-F5);
+    it is only used to recognise that finding, never to decide a violation."""
     k = ast[0]
+    if as_coded:
+        if k == "n":
+            Ts = set(T)
+            return {(s, o) for s, p, o in T if p not in ast[1] and all((o, a, s) not in Ts for a in ast[2])}
+        if k == "v":
+            return {(o, s) for s, o in rel(ast[1], T, U, True)}
+        if k == "s":
+            r = rel(ast[1][0], T, U, True)
+            for x in ast[1][1:]:
+                r2 = rel(x, T, U, True)
+                r = {(a, d) for a, b in r for c, d in r2 if b == c}
+            return r
+        if k == "a":
+            r = set()
+            for x in ast[1]:
+                r |= rel(x, T, U, True)
+            return r
+        if k == "m":
+            r = rel(ast[2], T, U, True)
+            ident = {(u, u) for u in U}
+            if ast[1] == "?":
+                return ident | r
+            clo = set(r)
+            while True:
+                new = {(a, d) for a, b in clo for c, d in r if b == c} - clo
+                if not new:
+                    break
+                clo |= new
+            return clo if ast[1] == "+" else clo | ident
     if k == "i":
         return {(s, o) for s, p, o in T if p == ast[1]}
     if k == "v":
@@ -297,9 +328,31 @@ def rel(ast, T, U):
     raise ValueError(k)
 
 
-def expected(ast, T, s, o):
+def expected(ast, T, s, o, as_coded=False):
     U = {x for t in T for x in (t[0], t[2])} | {x for x in (s, o) if x is not None}
-    return {(x, y) for x, y in rel(ast, T, U) if (s is None or x == s) and (o is None or y == o)}
+    return {(x, y) for x, y in rel(ast, T, U, as_coded) if (s is None or x == s) and (o is None or y == o)}
+
+
+def has_inv_neg(ast):
+    """a negated property set with an inverse member somewhere in the path (Lean: `¬ Path.noInvNeg`)"""
+    k = ast[0]
+    if k == "n":
+        return bool(ast[2])
+    if k == "v":
+        return has_inv_neg(ast[1])
+    if k == "m":
+        return has_inv_neg(ast[2])
+    if k in "sa":
+        return any(has_inv_neg(x) for x in ast[1])
+    return False
+
+
+def relation_tag(ast, T, s, o, got_set):
+    """`neginv` = the known finding C11-F5 and nothing else: the path contains a negated property set with an
+    inverse member AND the wrong answer is exactly what NegatedPath.eval's forward-triple test predicts"""
+    if has_inv_neg(ast) and got_set == expected(ast, T, s, o, as_coded=True):
+        return "neginv"
+    return "relation"
 
 
 class TooBig(Exception):
@@ -665,6 +718,7 @@ def _run_ex(case):
     paths = [to_rdflib(a, style) for a in EX_PATHS]
     closures = [is_closure(a) for a in EX_PATHS]
     g, cur = None, None
+    ntag = {}
     for gi, pi in _ex_items(case):
         if gi != cur:
             cur, T = gi, ex_graph(gi)
@@ -682,18 +736,26 @@ def _run_ex(case):
             except Exception as e:
                 if to_model:
                     obs.append("ERR:" + _err(e))
-                if len(viol) < 5:
+                ntag["raise"] = ntag.get("raise", 0) + 1
+                if ntag["raise"] <= 3:
                     viol.append(f"raise: route triples path {EX_PATHS[pi]} ends ({s},{o}) on {T} raised {type(e).__name__}")
                 continue
             if to_model:
                 obs.append(_line(got, closures[pi]))
             want = expected(EX_PATHS[pi], T, s, o)
             gs = set(got)
-            if gs != want and len(viol) < 5:
-                viol.append(f"relation: route triples path {EX_PATHS[pi]} ends ({s},{o}) on {T}: missing "
-                            f"{sorted(want - gs)} extra {sorted(gs - want)}")
-            elif closures[pi] and len(got) != len(gs) and len(viol) < 5:
-                viol.append(f"dup: route triples closure path {EX_PATHS[pi]} ends ({s},{o}) on {T} yields duplicates: {sorted(got)}")
+            if gs != want:
+                tag = relation_tag(EX_PATHS[pi], T, s, o, gs)
+                ntag[tag] = ntag.get(tag, 0) + 1
+                if ntag[tag] <= 3:   # a few of each kind: the known shape must not crowd out anything else
+                    viol.append(f"{tag}: route triples path {EX_PATHS[pi]} ends ({s},{o}) on {T}: missing "
+                                f"{sorted(want - gs)} extra {sorted(gs - want)}")
+            if closures[pi] and len(got) != len(gs):
+                ntag["dup"] = ntag.get("dup", 0) + 1
+                if ntag["dup"] <= 3:
+                    viol.append(f"dup: route triples closure path {EX_PATHS[pi]} ends ({s},{o}) on {T} yields duplicates: {sorted(got)}")
+    viol.sort(key=lambda v: v.startswith("neginv:"))   # anything that is not the known shape comes first
+    stats["ex_known_neginv"] = ntag.get("neginv", 0)
     return {"obs": obs, "viol": viol, "nontrivial": True, "key": "ex:%d" % case["ex"], "stats": stats}
 
 
@@ -751,9 +813,9 @@ def run_impl(case):
             const_line[(s, o)] = obs[-1]
         gs = set(got)
         if gs != want:
-            viol.append(f"relation: route {route} path {ast} ends ({s},{o}) on {T}: missing {sorted(want - gs)} "
-                        f"extra {sorted(gs - want)}")
-        elif closure and len(got) != len(gs):
+            viol.append(f"{relation_tag(ast, T, s, o, gs)}: route {route} path {ast} ends ({s},{o}) on {T}: missing "
+                        f"{sorted(want - gs)} extra {sorted(gs - want)}")
+        if closure and len(got) != len(gs):
             viol.append(f"dup: route {route} closure path {ast} ends ({s},{o}) on {T} yields duplicates: {sorted(got)}")
         if want:
             stats["answers_nonempty"] = stats.get("answers_nonempty", 0) + 1
@@ -917,7 +979,7 @@ def _bound(case):
     return [x for e in case.get("ends", []) for x in e if x is not None]
 
 
-# Matchers of the (all fixed) findings: narrow predicates over a shrunk case and its result.  They are only
+# Matchers of the findings (all fixed except C11-F5): narrow predicates over a shrunk case and its result.  They are only
 # consulted for `known` entries; they are kept so that an entry can be switched back to `known` if a repair is
 # ever reverted upstream.
 MATCHERS = {
@@ -929,7 +991,10 @@ MATCHERS = {
     and any(e[0] is None and e[1] in FALSY for e in c["ends"]),
     "seq_bw_forward_scan": lambda c, r: _viol(r, "relation") and _has(c["path"], lambda a: a[0] == "s" and len(a[1]) >= 3)
     and any(e[0] is None and e[1] is not None for e in c["ends"]),
-    "neg_inverse_member": lambda c, r: _viol(r, "relation") and _has(c["path"], lambda a: a[0] == "n" and bool(a[2])),
+    # C11-F5 (known): every violation of the case carries the tag `neginv`, which run_impl only gives when the path
+    # has a negated property set with an inverse member and the wrong answer is exactly the one NegatedPath.eval's
+    # forward-triple test predicts (relation_tag); any other violation in the same case keeps the case unmatched
+    "neg_inverse_member": lambda c, r: bool(r["viol"]) and all(v.startswith("neginv:") for v in r["viol"]),
     "sparql_nps_inverse_raises": lambda c, r: _viol(r, "raise", "sparql") and _has(c["path"], lambda a: a[0] == "n" and bool(a[2])),
     "sparql_nps_empty_raises": lambda c, r: _viol(r, "raise", "sparql") and _has(c["path"], lambda a: a[0] == "n" and not a[1] and not a[2]),
     "aggregate_path_per_member": lambda c, r: c["routes"] == ["agg"] and (_viol(r, "dup", "agg") or _viol(r, "raise", "agg")),
